@@ -56,16 +56,16 @@ meta("C08",
      min_counts={"quick": {"header_add_calls": 300, "foreign_line_objects_offered": 60, "probe_calls_failed": 400, "failing_calls": 1500}},
      set_samples=["failure_classes"])
 meta("C09",
-     rule="G3 histories with ~45% identifier clashes (additions and renames of every identified record type to identifiers in use by the same or another type) and legal renames; unique_names walker after every outermost mutation; model comparison after renames; non-trivial = history with a cross-type clash or a rename After every successful step a lookup oracle compares names/line()/segment() with the model (each identifier listed once and found as the real line that writes the model's record; freed identifiers not found), placeholders must exist exactly for mentioned-undefined identifiers, and line objects obtained earlier which claim to be connected must be the registered ones; L/C identifier tags are set, renamed and deleted; renames onto placeholders and to '*'.",
+     rule="G3 histories with ~45% identifier clashes (additions and renames of every identified record type to identifiers in use by the same or another type) and legal renames; unique_names walker after every outermost mutation; model comparison after renames; non-trivial = history with a cross-type clash or a rename After every successful step a lookup oracle compares names/line()/segment() with the model (each identifier listed once and found as the real line that writes the model's record; freed identifiers not found), placeholders must exist exactly for mentioned-undefined identifiers, and line objects obtained earlier which claim to be connected must be the registered ones; L/C identifier tags are set, renamed and deleted; renames onto placeholders and to '*'. Probe calls (refused after they began to create references) with the placeholder oracle after every refused call.",
      budget={"quick": 25, "thorough": 400},
-     min_counts={"quick": {"invariant_evaluations": 1000, "failing_calls": 300, "op:rename": 50, "lookups": 5000,
+     min_counts={"quick": {"invariant_evaluations": 1000, "failing_calls": 300, "probe_calls": 300, "placeholder_oracle_evaluations": 1000, "op:rename": 50, "lookups": 5000,
                            "freed_lookups": 100, "unused_names_asked": 1000, "unused_names_asked_with_dangling_integer": 100}},
      set_samples=["clash_shapes"])
 
 meta("C04",
-     rule="(1) exhaustive enumeration of all strings of length <=3 (quick) / <=4 (thorough) over 7-17-symbol alphabets per datatype (7 tag datatypes + 18 positional datatypes) embedded in an otherwise valid carrier line, judged at vlevel 1 and 3 (distinct by construction); (2) generated valid lines/documents, their single-point mutants, cross-field documents (LN, path overlap count, beg<=end, $ position, undefined references, duplicate identifiers, predefined tag types, version mixing), rGFA documents; every case is classified VALID/INVALID/UNSPECIFIED by the independent recogniser and compared with construction + explicit validate(); non-trivial = classified VALID or INVALID (not UNSPECIFIED)",
+     rule="(1) exhaustive enumeration of all strings of length <=3 (quick) / <=4 (thorough) over 7-17-symbol alphabets per datatype (7 tag datatypes + 18 positional datatypes) embedded in an otherwise valid carrier line, judged at vlevel 1 and 3 (distinct by construction); (2) generated valid lines/documents, their single-point mutants, cross-field documents (LN, path overlap count, beg<=end, $ position, undefined references, duplicate identifiers, predefined tag types, version mixing), rGFA documents; every case is classified VALID/INVALID/UNSPECIFIED by the independent recogniser and compared with construction + explicit validate(); non-trivial = classified VALID or INVALID (not UNSPECIFIED) Order twins and entry-point twins: the same lines in another order, or through another entry point, must get the same verdict whatever the verdict is (also where the recogniser is silent); multi-line group tag pairs; path/link overlap documents.",
      budget={"quick": 40, "thorough": 600},
-     min_counts={"quick": {"strings_judged": 50000, "docs_judged": 500, "lines_judged": 300}},
+     min_counts={"quick": {"strings_judged": 50000, "docs_judged": 500, "order_twins_judged": 4000, "entry_twins_judged": 2000, "lines_judged": 300}},
      exhaustive="strata (1) only: all strings up to the stated length over the per-datatype alphabets of vlib/gen/hostile.py",
      set_samples=["dt_verdicts", "doc_reasons"])
 
@@ -77,12 +77,12 @@ meta("C07",
                   "termination is restated as bounded progress: no call may exceed the deterministic step budget; a wall-clock watchdog firing is inconclusive"])
 
 meta("C03",
-     rule="valid GFA1/GFA2 documents of 3..5 (quick) / 3..7 (thorough) lines with every record family: ALL n! arrival orders are executed and the full public observation (version, written records, namespace, per-line reference targets, per-collection back-references, path link direction flags) must be identical across orders, equal the model's neighbourhoods, and contain no placeholder for a defined identifier; larger documents (<=14 lines) with sampled orders; non-trivial = document with >=1 referencing record and >1 order; distinct = distinct documents 25% of the all-orders documents carry a twin record (two records written identically: C without ID, F, '*'-named E/G/O/U); reference targets are marked when they are placeholders or not the registered object.",
+     rule="valid GFA1/GFA2 documents of 3..5 (quick) / 3..7 (thorough) lines with every record family: ALL n! arrival orders are executed and the full public observation (version, written records, namespace, per-line reference targets, per-collection back-references, path link direction flags) must be identical across orders, equal the model's neighbourhoods, and contain no placeholder for a defined identifier; larger documents (<=14 lines) with sampled orders; non-trivial = document with >=1 referencing record and >1 order; distinct = distinct documents 25% of the all-orders documents carry a twin record (two records written identically: C without ID, F, '*'-named E/G/O/U); reference targets are marked when they are placeholders or not the registered object. Sets defined on several U lines and paths on two O lines (tags of every datatype, distinct names) in sampled arrival orders, compared with the group the lines define; GFA1 documents in which paths state different overlaps over a link with unspecified overlap.",
      budget={"quick": 30, "thorough": 500},
-     min_counts={"quick": {"documents_with_twin_records": 30, "permutations": 20000, "documents_all_orders": 100}},
+     min_counts={"quick": {"documents_with_twin_records": 30, "multiline_group_orders": 1000, "documents_path-link-overlaps": 60, "permutations": 20000, "documents_all_orders": 100}},
      exhaustive=None)
 meta("C13",
-     rule="documents assembled from pools of GFA1-only, GFA2-only and version-neutral lines (pure, neutral, mixed; every line distinct so that multiplicity is observable) x explicit version {None,gfa1,gfa2} x dialect {standard,rgfa} x entry point {Gfa(list), Gfa(str), from_file} x vlevel; ALL permutations for documents of <=6 (quick) / <=7 (thorough) lines; expected version / VersionError from the independent line classifier; each input line must appear exactly once; non-trivial = document with a version-ambiguous line arriving before the deciding line 20% line-by-line scenarios: refused lines which hint at a version among neutral lines, then content of either version: the version follows from the accepted lines alone. Documents with a VN header naming a version which does not exist (1.1, 2.1, gfa1, ...): refused in every order.",
+     rule="documents assembled from pools of GFA1-only, GFA2-only and version-neutral lines (pure, neutral, mixed; every line distinct so that multiplicity is observable) x explicit version {None,gfa1,gfa2} x dialect {standard,rgfa} x entry point {Gfa(list), Gfa(str), from_file} x vlevel; ALL permutations for documents of <=6 (quick) / <=7 (thorough) lines; expected version / VersionError from the independent line classifier; each input line must appear exactly once; non-trivial = document with a version-ambiguous line arriving before the deciding line 20% line-by-line scenarios: refused lines which hint at a version among neutral lines, then content of either version: the version follows from the accepted lines alone. Documents with a VN header naming a version which does not exist (1.1, 2.1, gfa1, ...): refused in every order. After a refused header VN the version must not be the refused one.",
      budget={"quick": 25, "thorough": 400},
      min_counts={"quick": {"unsupported_vn_documents_orders": 300, "objects_of_other_version_offered": 40, "header_vn_assignments": 40, "deciding_objects_offered": 30, "incremental_calls": 250, "incremental_refusals": 60, "orders": 20000, "documents_all_orders": 200}},
      set_samples=["kinds"])
@@ -96,26 +96,26 @@ meta("C10",
 meta("C12",
      rule="(1) exhaustively: 4 orientation pairs x {A->B, A->A, B->A} x all 1-operation and all ordered 2-operation CIGARs over M,I,D,P,=,X,H plus '*': complement text vs the model, involution, length exchange, symmetric and repeatable equivalence tests; (2) random links with CIGARs of <=6 operations: adding the complement of a stored link (either form stored) adds nothing and raises nothing, a link differing otherwise is a separate edge; paths over the link in both traversal directions x 6 arrival orders of P/L/S, the recorded direction flag is checked by interpreting it; non-trivial = overlap different from its own complement",
      budget={"quick": 20, "thorough": 300},
-     min_counts={"quick": {"complements": 3000, "equivalence_tests": 20000, "complement_additions": 300, "path_resolutions": 600}},
+     min_counts={"quick": {"complements": 3000, "complements_after_edit": 8000, "equivalence_tests": 20000, "complement_additions": 300, "path_resolutions": 600}},
      exhaustive="stratum (1): orientation pairs x segment pairs x all 1- and 2-operation CIGARs")
 
 meta("C19",
      rule="every line of generated GFA1/GFA2 documents (all record types incl. header, comments, custom records; connected to a Gfa or stand-alone; vlevel 0-3) is cloned: detached, same written form, equal in both directions; an aliasing monitor compares by identity every mutable object (list, dict, CIGAR, Operation, Trace, NumericArray, OrientedLine, FieldArray) reachable from the public field values of both copies; in-place edit scripts on the clone (and on the original's tags) must leave the other copy and the Gfa textually unchanged; non-trivial = line with >=1 mutable-valued field",
      budget={"quick": 20, "thorough": 300},
-     min_counts={"quick": {"clones": 20000, "edit_scripts": 10000, "clone:S": 1, "clone:L": 1, "clone:C": 1, "clone:P": 1,
+     min_counts={"quick": {"clones": 20000, "copies_made_by_multiply": 120, "equalities_after_one_sided_read": 7000, "edit_scripts": 10000, "clone:S": 1, "clone:L": 1, "clone:C": 1, "clone:P": 1,
                            "clone:E": 1, "clone:F": 1, "clone:G": 1, "clone:O": 1, "clone:U": 1, "clone:H": 1,
                            "clone:#": 1, "clone:custom": 1}},
      set_samples=["cloned_mutable_kinds"])
 meta("C20",
-     rule="Python values of every supported kind (int, finite float, str, char, JSON list/dict, integer/float array, byte array) on and next to subtype/grammar boundaries, and values the datatype cannot represent (tab/newline/non-printable strings, non-finite floats, mixed/out-of-range/empty arrays, bytes > 255, JSON with non-printables), assigned by set() / attribute / after set_datatype on S, L, E, H lines at vlevel 0-3; checked: default datatype, validate_field, written tag vs the datatype grammar, smallest array subtype, read back through gfapy.Line(str(line)) equal with the same datatype; unrepresentable values must fail validation and not be written unflagged at level >= 2; distinct = (kind, value, way, level, carrier) 12% any-class cells (a Python value of any class offered to each declared datatype: never a foreign exception, never malformed text after passing validation); 25% of the good cases assign on a line whose clone got a value of another class under the same tag first; float arrays draw |x| >= 1e16. 30%: carriers of every record type (S L C P E F G O U custom) connected to a Gfa, then rename / further group line / re-add / re-parse before the read-back; 20%: the tag existed before with a value of another class and was removed (None or delete).",
+     rule="Python values of every supported kind (int, finite float, str, char, JSON list/dict, integer/float array, byte array) on and next to subtype/grammar boundaries, and values the datatype cannot represent (tab/newline/non-printable strings, non-finite floats, mixed/out-of-range/empty arrays, bytes > 255, JSON with non-printables), assigned by set() / attribute / after set_datatype on S, L, E, H lines at vlevel 0-3; checked: default datatype, validate_field, written tag vs the datatype grammar, smallest array subtype, read back through gfapy.Line(str(line)) equal with the same datatype; unrepresentable values must fail validation and not be written unflagged at level >= 2; distinct = (kind, value, way, level, carrier) 12% any-class cells (a Python value of any class offered to each declared datatype: never a foreign exception, never malformed text after passing validation); 25% of the good cases assign on a line whose clone got a value of another class under the same tag first; float arrays draw |x| >= 1e16. 30%: carriers of every record type (S L C P E F G O U custom) connected to a Gfa, then rename / further group line / re-add / re-parse before the read-back; 20%: the tag existed before with a value of another class and was removed (None or delete). Empty byte/numeric arrays among the unrepresentable values; at level 3 a refused first assignment of a new tag followed by a valid value of another class.",
      budget={"quick": 20, "thorough": 300},
-     min_counts={"quick": {"connected_read_backs": 20000, "first_reads": 10000, "removed_then_assigned": 10000, "anyclass_assignments": 10000, "sibling_assignments": 10000, "assignments": 30000, "read_backs": 10000, "bad_values_validated": 2000, "kinds": 14}},
+     min_counts={"quick": {"connected_read_backs": 20000, "refused_then_assigned": 2000, "first_reads": 10000, "removed_then_assigned": 10000, "anyclass_assignments": 10000, "sibling_assignments": 10000, "assignments": 30000, "read_backs": 10000, "bad_values_validated": 2000, "kinds": 14}},
      set_samples=["kinds"])
 
 meta("C11",
-     rule="(1) exhaustive table: 4 orientation pairs x 7 x 7 interval kinds (empty prefix, prefix, whole, inner, empty inner, suffix, empty suffix) x both sid orders = 392 E lines, each as its own graph and all together; L/C/G lines and self-edges x 4 orientation pairs x {A->B, A->A, B->A} incl. parallel links; (2) random GFA1/GFA2 graphs with several edges per end, re-checked after 1-4 random removals/renames mirrored on the text model; every traversal collection, derived answer (neighbours, containers, contained), edge predicate, from/to/other end and Gfa-level dovetails/containments is compared with the independent model of vlib/spec/edges.py; distinct = table cells (by construction) + distinct random graphs 30% of the random cases are shared mutation histories (forward references, renames onto placeholders, cascades, re-additions) with the collections judged after every step. Histories contain refused and probe calls and the documented disconnect-edit-add-again of edges (judged after each); validation level 0-3 derived from the case; connected edges edited through their OrientedLine objects / GFA1-style attributes (refused or re-filed).",
+     rule="(1) exhaustive table: 4 orientation pairs x 7 x 7 interval kinds (empty prefix, prefix, whole, inner, empty inner, suffix, empty suffix) x both sid orders = 392 E lines, each as its own graph and all together; L/C/G lines and self-edges x 4 orientation pairs x {A->B, A->A, B->A} incl. parallel links; (2) random GFA1/GFA2 graphs with several edges per end, re-checked after 1-4 random removals/renames mirrored on the text model; every traversal collection, derived answer (neighbours, containers, contained), edge predicate, from/to/other end and Gfa-level dovetails/containments is compared with the independent model of vlib/spec/edges.py; distinct = table cells (by construction) + distinct random graphs 30% of the random cases are shared mutation histories (forward references, renames onto placeholders, cascades, re-additions) with the collections judged after every step. Histories contain refused and probe calls and the documented disconnect-edit-add-again of edges (judged after each); validation level 0-3 derived from the case; connected edges edited through their OrientedLine objects / GFA1-style attributes (refused or re-filed). other() asked with the segment instance and with its name.",
      budget={"quick": 20, "thorough": 240},
-     min_counts={"quick": {"judged_after_refused_call": 800, "edits_through_value_objects": 1500, "checks_after_mutation": 4000, "table_cells": 392, "lcg_cells": 30, "collections_compared": 20000, "edge_predicates_compared": 2000, "checks_after_mutation": 2000}},
+     min_counts={"quick": {"judged_after_refused_call": 800, "edits_through_value_objects": 1500, "other_calls/by-name": 30000, "checks_after_mutation": 4000, "table_cells": 392, "lcg_cells": 30, "collections_compared": 20000, "edge_predicates_compared": 2000, "checks_after_mutation": 2000}},
      exhaustive="table (1): 392 E-line cells + L/C/G/self-edge cells")
 meta("C16",
      rule="GFA1/GFA2 graphs with isolated segments, trees, cycles, self-links, hairpins, parallel edges, containment-only and internal-only relations (plus generic generated documents); connected_components, segment_connected_component (by name and by instance) and the four counters are compared with an independent union-find / text count; then again after 0-4 random removals mirrored on the text model; remove_small_components vs component lengths; non-trivial = >=2 components and a cycle/self-link/hairpin/parallel/containment/internal feature 25% of the cases are shared mutation histories with components and counts judged after every step. Large graphs (chains, rings, two chains of 300-4000 segments); histories with refused/probe calls judged after each; levels 0-3.",
@@ -126,7 +126,7 @@ meta("C16",
 meta("C18",
      rule="(a) generated valid documents built at levels 0,1,2,3: written text (textually for canonical spelling, canonically for free spelling) and full observation must agree; (b) hostile documents and mutants built at all four levels: acceptance must be monotone (accepted at k => accepted at every lower level); (c) assignment scripts: 24 positional fields/tags x valid and invalid values x levels 0-3 x set()/attribute, followed by validate_field, validate, field_to_s, get, str: invalid reported at the assignment at level 3, at the latest on write at level 2, by explicit validation at every level; valid never rejected; non-trivial = document with delayed-parsing datatypes, acceptance differing between levels, or any assignment; distinct by (document | field, value, level, way) Sequences on a new tag: value(s) unrepresentable in their own default datatype (refused at level 3), then a representable value of another class, which must be accepted with its documented default datatype.",
      budget={"quick": 25, "thorough": 360},
-     min_counts={"quick": {"seq_valid_after_refused": 60, "header_add_assignments": 300, "header_add_valid_after_refused": 30, "assignments_on_lines_created_by_a_gfa": 300, "value_object_assignments": 30, "level_builds": 4000, "monotonicity_builds": 4000, "assignments": 4000, "invalid_validated": 1200, "assign_cells": 250}})
+     min_counts={"quick": {"seq_valid_after_refused": 60, "header_inplace_edits": 30, "header_add_assignments": 300, "header_add_valid_after_refused": 30, "assignments_on_lines_created_by_a_gfa": 300, "value_object_assignments": 30, "level_builds": 4000, "monotonicity_builds": 4000, "assignments": 4000, "invalid_validated": 1200, "assign_cells": 250}})
 
 meta("C14",
      rule="GFA1 (70%) and GFA2 graphs of 2-8 segments with M/=-only or '*' overlaps: backbone chains of 2-5 segments in every mix of orientations, rings, plus branches, self-links, hairpins on chain ends and inside, chains sharing junctions, with and without sequences; linear_paths() is compared with the independent chain finder (modulo reversal / ring rotation); after merge_linear_paths(): spelled sequence (orientation taken from the path gfapy reported), length, exact multiset of outward dovetails re-attached to the right ends, untouched segments, component partition, closed/symmetric object graph, idempotence; non-trivial = a chain of >=3 segments with mixed exit ends 30% of the merges use enable_tracking=True (the '^' marks in merged names are stripped before comparison). Graphs built at validation levels 0-3.",
@@ -137,17 +137,17 @@ meta("C14",
 meta("C15",
      rule="GFA1 (70%) / GFA2 graphs of 2-5 segments (names incl. ones ending in *n) with count tags, several dovetails per end, parallel links, containments, self-links, named edges; multiply(segment by name or instance, k in -1..4, distribute in {None, off, auto, equal, L, R}, given or automatic copy names); the text before/after is compared by an independent model: number/freshness/requested names of copies, identical fields and tags, count tags of segment and edges divided (floor..ceil), every dovetail/containment copied to the same neighbours with the same orientation/overlap, no invented edge, distribution semantics (every former neighbour stays linked, at most one end distributed), factor 1 / 0 / negative, rest of the graph textually unchanged, object graph closed and symmetric; non-trivial = segment with >=2 dovetails on one end or a containment and k>=2",
      budget={"quick": 20, "thorough": 300},
-     min_counts={"quick": {"multiplications": 6000, "apply_copy_numbers_calls": 300, "invariant_evaluations": 4000, "configs": 30}},
+     min_counts={"quick": {"multiplications": 6000, "prelude_operations": 2000, "apply_copy_numbers_calls": 300, "invariant_evaluations": 4000, "configs": 30}},
      set_samples=["configs"])
 
 meta("C17",
      rule="GFA2 graphs of 2-6 segments and named edges; (a) ordered groups generated as presentations of a known alternating walk: full, segments only (edges implied where exactly one fits), edges only (segments implied), mixed omissions, nested sub-paths referenced + or - ; captured_path/segments/edges must equal the walk; (b) deliberately broken lists (foreign segment, ambiguous parallel edges, non-adjacent segments) must raise; (c) unordered groups over segments, edges, paths and nested sets: induced segments/edges/set vs an independent closure; (d) multi-line U/O definitions in ALL arrival orders of the group lines (<=4 lines): items concatenated in arrival order, tags united; documents are shuffled; non-trivial = nested or abbreviated or reversed presentation, broken list, set, multi-line group 40% of the graphs are built line by line with every group queried after each arrival (answers on the incomplete graph are not judged); twin unnamed identical edges as the only fitting edges must give the ambiguity error; group lines given as Line objects must be disconnected once merged. Nested paths whose listing begins/ends with an edge item (only lists on which the 'items in place' and 'walk in place' readings agree), a third nesting level, and multi-line groups nested in other groups with the outer lines arriving before/between/after the inner lines.",
      budget={"quick": 20, "thorough": 300},
-     min_counts={"quick": {"nested_paths_with_edge_ends": 300, "nested_multiline_resolutions": 15000, "early_queries": 20000, "stale_objects_checked": 5000, "captured_paths": 5000, "rejected_lists": 1000, "induced_sets": 3000, "multiline_orders": 3000, "item_kinds": 4}},
+     min_counts={"quick": {"nested_paths_with_edge_ends": 300, "multiline_groups_before_their_items": 3000, "nested_multiline_resolutions": 15000, "early_queries": 20000, "stale_objects_checked": 5000, "captured_paths": 5000, "rejected_lists": 1000, "induced_sets": 3000, "multiline_orders": 3000, "item_kinds": 4}},
      set_samples=["kinds", "item_kinds"])
 
 meta("C06",
-     rule="GFA1 graphs whose segments have a length and whose overlaps are specified, asymmetric CIGARs (I/D/P), every orientation pair, self-links, containments at offset 0 / inner / flush right, linear, circular and single-segment paths traversing links in either direction, named and unnamed edges, tags; GFA2 graphs from G1 with CIGAR or '*' alignments; whole-graph conversion in both directions (string and Gfa), line-level refusals, there-and-back; edges are compared in the E-line semantic normal form (the four spellings under sid swap => I<->D and orientation flip => reversed operations) computed by an independent model from CIGAR reference/query lengths and segment lengths; converted text must be VALID for the target grammar and accepted by Gfa(vlevel=3).validate(); bin/gfapy-convert sampled; non-trivial = graph with an alignment that is not its own swap/reverse Several P lines per document, also the same walk the other way round, lines in any arrival order. 8%: links/containments whose overlaps use GFA1-only operations (= X N S H): refusal, omission or valid GFA2, never invalid text (Gfa, line level, CLI); circular paths of one segment over a self-link.",
+     rule="GFA1 graphs whose segments have a length and whose overlaps are specified, asymmetric CIGARs (I/D/P), every orientation pair, self-links, containments at offset 0 / inner / flush right, linear, circular and single-segment paths traversing links in either direction, named and unnamed edges, tags; GFA2 graphs from G1 with CIGAR or '*' alignments; whole-graph conversion in both directions (string and Gfa), line-level refusals, there-and-back; edges are compared in the E-line semantic normal form (the four spellings under sid swap => I<->D and orientation flip => reversed operations) computed by an independent model from CIGAR reference/query lengths and segment lengths; converted text must be VALID for the target grammar and accepted by Gfa(vlevel=3).validate(); bin/gfapy-convert sampled; non-trivial = graph with an alignment that is not its own swap/reverse Several P lines per document, also the same walk the other way round, lines in any arrival order. 8%: links/containments whose overlaps use GFA1-only operations (= X N S H): refusal, omission or valid GFA2, never invalid text (Gfa, line level, CLI); circular paths of one segment over a self-link. '$' rule on every position of every converted E/F line; links covering a whole segment; GFA2 graphs written from an independent link model with ordered groups in six presentations (segments, alternating, edges only, edge first/last/both) converted 2->1 and compared segment by segment and overlap by overlap.",
      budget={"quick": 25, "thorough": 360},
-     min_counts={"quick": {"gfa1_only_alignment_conversions": 2000, "no_counterpart_conversions": 150, "conversions_after_edit": 100, "conversions_1to2": 3000, "conversions_2to1": 1200, "edges_compared": 8000, "round_trips": 4000, "paths_compared": 500, "line_level_refusals": 500}},
+     min_counts={"quick": {"gfa1_only_alignment_conversions": 2000, "whole_segment_overlap_conversions": 120, "positions_checked_for_$": 30000, "paths_compared_2to1": 500, "no_counterpart_conversions": 150, "conversions_after_edit": 100, "conversions_1to2": 3000, "conversions_2to1": 1200, "edges_compared": 8000, "round_trips": 4000, "paths_compared": 500, "line_level_refusals": 500}},
      assumptions=["containments whose container orientation is '-' (GFA1 does not say on which strand pos counts), dovetails spanning a whole segment, trace alignments and internal edges are outside the comparison (DESIGN 3.1)"])
